@@ -1723,3 +1723,45 @@ B("C17-worker-no-decrement", "C17", "C17:R-C17.4:worker_pool::WorkerPool::start:
   """                                        log::debug!("Worker #{i} closes because DB is dropping");
                                         let _ = &thread_counter;
                                         return Ok(());""")
+
+# ======================================================================== C18
+B("C18-no-assigner-on-recovery", "C18", "C18:R-C18.1:recovery::recover_keyspaces", REC,
+  """        if let Some(f) = db
+            .config
+            .compaction_filter_factory_assigner
+            .as_ref()
+            .and_then(|f| f(&keyspace_name))
+        {
+            recovered_config = recovered_config.with_compaction_filter_factory(f);
+        }
+""",
+  """        let _ = &mut recovered_config;
+""")
+B("C18-assigner-wrong-name", "C18", "C18:R-C18.1:db::Database::keyspace", DB,
+  """                .and_then(|f| f(&name))
+            {
+                opts = opts.with_compaction_filter_factory(f);""",
+  """                .and_then(|f| f("default"))
+            {
+                opts = opts.with_compaction_filter_factory(f);""")
+B("C18-factory-on-default-options", "C18", "C18:R-C18.1:db::Database::keyspace", DB,
+  """                opts = opts.with_compaction_filter_factory(f);""",
+  """                opts = KeyspaceCreateOptions::default().with_compaction_filter_factory(f);""")
+B("C18-extra-install-site", "C18", "C18:R-C18.2:keyspace::Keyspace::create_new", KS,
+  """        let base_config = apply_to_base_config(base_config, &config);
+        let tree = base_config.open()?;""",
+  """        let config = match db
+            .config
+            .compaction_filter_factory_assigner
+            .as_ref()
+            .and_then(|f| f("default"))
+        {
+            Some(f) => config.with_compaction_filter_factory(f),
+            None => config,
+        };
+        let base_config = apply_to_base_config(base_config, &config);
+        let tree = base_config.open()?;""")
+B("C18-factory-not-applied", "C18", "C18:R-C18.2:keyspace::apply_to_base_config", KS,
+  "        .with_compaction_filter_factory(our_config.compaction_filter_factory.clone())", "        .with_compaction_filter_factory(None)")
+B("C18-compacts-other-strategy", "C18", "C18:R-C18.3:compaction::worker::run", "src/compaction/worker.rs",
+  "    let strategy = keyspace.config.compaction_strategy.clone();", "    let strategy: std::sync::Arc<dyn lsm_tree::compaction::CompactionStrategy + Send + Sync> = std::sync::Arc::new(crate::compaction::Leveled::default());")
